@@ -159,6 +159,13 @@ func ReplayOnKernel(trace []Call, dir string, want map[string]string) error {
 				break
 			}
 			got = errnoOf(realunix.Ftruncate(r, c.Args[1].(int64)))
+		case "fallocate":
+			r, ok := fdmap[c.Args[0].(int)]
+			if !ok {
+				got = EBADF
+				break
+			}
+			got = errnoOf(realunix.Fallocate(r, c.Args[1].(uint32), c.Args[2].(int64), c.Args[3].(int64)))
 		case "mkdirat":
 			got = errnoOf(realunix.Mkdirat(mapDirfd(c.Args[0].(int)), fix(c.Args[1].(string)), 0755))
 		case "unlinkat":
